@@ -125,6 +125,9 @@ class FixedGrid(Grid):
                     yield r
         else:
             Tk = T*(self.normalized(N)[k+1]-self.normalized(N)[k])
+        if not (is_numeric(self.min) and is_numeric(self.max) and self.min==0 and self.max==inf):
+            # min/max apply to every control interval
+            yield (self.min <= (Tk <= self.max), {})
         if self.localize_t0 and k>=0:
             yield (t0_local[k]+Tk==t0_local[k+1],{})
 
